@@ -365,6 +365,9 @@ func (c *Client) Take() []*Recv {
 	return out
 }
 
+// ResetTaken makes the next Take return the whole (possibly edited) log.
+func (c *Client) ResetTaken() { c.taken = 0 }
+
 // All returns everything received so far.
 func (c *Client) All() []*Recv {
 	c.pump()
